@@ -57,7 +57,7 @@ theorem bl_all : ∀ s : Schema, wf s = true → dense s = true → BLprop env s
       subst hu
       have ht : t = [] := by cases t <;> simp_all
       subst ht
-      refine ⟨by simp [blank, OkP, hok.2.2.1, hok.2.2.2], ?_, by simp [blank, uOf]⟩
+      refine ⟨by simpa [blank, OkP] using hok.1, ?_, by simp [blank, uOf]⟩
       simp only [blank]; rw [emitsB_joined]; rfl
     | _ => simp [OkP] at hok
   · -- dict
@@ -132,8 +132,12 @@ theorem okP_pr : ∀ s : Schema, wf s = true → dense s = true →
       simp only [OkP] at hok
       simp only [pr]
       split
-      · simp [OkP, hok.2.2.1, hok.2.2.2]
-      · simp only [OkP]; exact hok
+      · rename_i h
+        simp only [Bool.and_eq_true, List.isEmpty_iff] at h
+        have h0 := hok.1
+        rw [h.2] at h0
+        simp [OkP, h0]
+      · simp only [OkP]; exact ⟨hok.1, Or.inl trivial⟩
     | _ => simp [OkP] at hok
   · intro nm o fields hnd hsome ih u e hok
     cases e with
@@ -316,7 +320,7 @@ theorem emitsB_pr_true : ∀ s : Schema, wf s = true → dense s = true →
       · rename_i h
         simp only [Bool.true_and, List.isEmpty_iff] at h
         rw [emitsB_joined, emitsB_joined, h]
-      · rfl
+      · rw [emitsB_joined, emitsB_joined]
     | _ => simp [OkP] at hok
   · intro nm o fields hnd hsome ih e hok
     cases e with
